@@ -26,6 +26,10 @@ func CallName(c ssa.CallInstruction) string {
 		}
 	case *ssa.Builtin:
 		return "builtin." + v.Name()
+	case *ssa.Parameter:
+		return "dynamic:" + v.Name()
+	case *ssa.FreeVar:
+		return "dynamic:" + v.Name()
 	}
 	return "dynamic"
 }
